@@ -50,10 +50,14 @@ func init() {
 // toggles: all true = the backend as I understand its code.
 type toggles map[string]bool
 
+// repaired holds the ids whose known_findings.json entry says "fixed": their deviation is switched
+// off in the backend model, so that the behaviour coming back would be an unexplained divergence.
+var repaired = map[string]bool{}
+
 func allOn() toggles {
 	t := toggles{}
 	for id := range findings {
-		t[id] = true
+		t[id] = !repaired[id]
 	}
 	return t
 }
